@@ -26,10 +26,11 @@ PART 1 — one application instance with its RAM-only caches.
       `RunMemPackage(memPkg, save=false)`: the ephemeral package's nodes go
       into the node cache (and stay there after a successful transaction; a
       restarted instance does not have them — modelled as `runs`).
-  The harness deploys four fixed realms (`Slot`): `a` (an avl tree: sorted by
+  The harness deploys five fixed realms (`Slot`): `a` (an avl tree: sorted by
   key), `b` (a Gno `map[string]int`: iteration = insertion order, a deleted and
   re-inserted key moves to the end), `c` (a sorted slice of structs), `h` (a hub
-  importing `a` and `b`: `Both` mutates three realms, `Half` does and panics).
+  importing `a` and `b`: `Both` mutates three realms, `Half` does and panics),
+  `p` (a realm at gno.land/r/sys/params that rewrites an auth parameter).
   Behaviour in a state where database and node cache disagree cannot be
   observed on the real system (theorem `reachable_coherent`); the model labels
   it `Err.incoherent` instead of guessing.
@@ -50,7 +51,7 @@ namespace GnoVerif.C01
 
 /-! ## Part 1 -/
 
-inductive Slot | a | b | c | h
+inductive Slot | a | b | c | h | p
   deriving DecidableEq, Repr
 
 abbrev KV := List (Nat × Int)
@@ -81,18 +82,21 @@ structure Db where
   db : Bool := false
   dc : Bool := false
   dh : Bool := false
+  dp : Bool := false
   a : KV := []
   b : KV := []
   c : KV := []
   hn : Nat := 0
+  pl : Nat := 0
   deriving DecidableEq, Repr
 
 def Db.dep (d : Db) : Slot → Bool
-  | .a => d.da | .b => d.db | .c => d.dc | .h => d.dh
+  | .a => d.da | .b => d.db | .c => d.dc | .h => d.dh | .p => d.dp
 
 def Db.setDep (d : Db) : Slot → Db
   | .a => { d with da := true } | .b => { d with db := true }
   | .c => { d with dc := true } | .h => { d with dh := true }
+  | .p => { d with dp := true }
 
 /-- What a transaction works on: the database overlay, the txlog-wrapped node
 cache (`nodes` = package nodes of realms, `runs` = ephemeral run packages by
@@ -148,6 +152,12 @@ def realmFn (d : Db) (s : Slot) (f : Fn) (k : Nat) (v : Int) (dep : Bool) : Exce
   | .h, .both => .ok { d with hn := d.hn + 1, a := kvSetSorted d.a k v, b := kvSetIns d.b k v }
   | .h, .half => .error .vmPanic
   | .h, .grab => .ok d   -- stores two foreign-owned objects; nothing the dump shows
+  -- `p` = a realm at gno.land/r/sys/params: `Set` records k and (k = 0, 1, 2) replaces the
+  -- auth module's unrestricted-address list by nobody / u1,u2 / u0,u1,u2 — which only
+  -- flips a flag inside those accounts
+  | .p, .set => .ok { d with pl := k }
+  | .p, .del => .ok d
+  | .p, .inc => .ok d
   | _, .fail => .error .vmPanic
   | _, .sum => .ok d
   | _, _ => .error .vmPanic   -- not in the grammar (a function the realm does not have)
@@ -206,7 +216,7 @@ def applyTx (who : Nat) (lo : Bool) (msgs : List Msg) (t : TxSt) : TxSt × Optio
     | .ok t' => (t', none)
     | .error e => (t, some e)
 
-def allSlots : List Slot := [.a, .b, .c, .h]
+def allSlots : List Slot := [.a, .b, .c, .h, .p]
 
 /-- Restart: the database survives, the node cache is rebuilt from the stored
 packages, the run packages' nodes are gone. -/
@@ -252,7 +262,7 @@ def showKV (m : KV) : String :=
 
 def showDb (d : Db) : String :=
   let f (dep : Bool) (s : String) := if dep then s else "-"
-  s!"a={f d.da (showKV d.a)} b={f d.db (showKV d.b)} c={f d.dc (showKV d.c)} h={f d.dh (toString d.hn)}"
+  s!"a={f d.da (showKV d.a)} b={f d.db (showKV d.b)} c={f d.dc (showKV d.c)} h={f d.dh (toString d.hn)} p={f d.dp (toString d.pl)}"
 
 def Out.str : Out → String
   | .ok => "ok"
@@ -442,15 +452,18 @@ def flush {σ : Type} (apply : σ → List Nat × Option (List Nat) → σ) (par
     (dirty : List (List Nat × Option (List Nat))) : σ :=
   (dirty.mergeSort fun x y => pathLe x.1 y.1).foldl apply parent
 
-/-! ## Part 2b — gas charged inside a map range (realm.go:569, FINDING)
+/-! ## Part 2b — gas charged inside a map range (realm.go:569)
 
-`FinalizeRealmTransaction` ends with
-`for _, fr := range rlm.touchedForeignRealms { …; store.SetPackageRealm(fr) }`;
-`SetPackageRealm` charges amino-encode and store-write gas proportional to the
-record's size.  `basicGasMeter.ConsumeGas` (tm2/pkg/store/types/gas.go:214) adds
-the amount FIRST ("consume gas even if out of gas") and then panics if the limit is
-exceeded; `runTx` reports `GasUsed = GasConsumed()` and charges the block meter with
-`GasConsumedToLimit()`. -/
+`FinalizeRealmTransaction` ends with one `store.SetPackageRealm(fr)` per touched
+foreign realm; `SetPackageRealm` charges amino-encode and store-write gas
+proportional to the record's size.  `basicGasMeter.ConsumeGas`
+(tm2/pkg/store/types/gas.go:214) adds the amount FIRST ("consume gas even if out of
+gas") and then panics if the limit is exceeded; `runTx` reports
+`GasUsed = GasConsumed()` and charges the block meter with `GasConsumedToLimit()`.
+Until the fix "FinalizeRealmTransaction iterates the touched foreign realms in path
+order" the loop ranged over the map `rlm.touchedForeignRealms` directly
+(`chargeAll` on the enumeration); now the realms are collected, sorted by path and
+then charged (`chargeSorted`). -/
 
 structure Meter where
   limit : Nat
@@ -469,6 +482,16 @@ def chargeAll : Meter → List Nat → Except Meter Meter
     match m.consume g with
     | .ok m' => chargeAll m' gs
     | .error m' => .error m'
+
+def chargeStep (r : Except Meter Meter) (e : List Nat × Nat) : Except Meter Meter :=
+  match r with
+  | .ok m => m.consume e.2
+  | .error m => .error m
+
+/-- The loop as it is now: `enum` = (path, charge) in the order the map was enumerated;
+collected, sorted by path, then charged until the first panic. -/
+def chargeSorted (m : Meter) (enum : List (List Nat × Nat)) : Except Meter Meter :=
+  (enum.mergeSort fun x y => pathLe x.1 y.1).foldl chargeStep (.ok m)
 
 /-- `GasConsumed()` after the loop: what `ResponseDeliverTx.GasUsed` reports. -/
 def gasUsed : Except Meter Meter → Nat
